@@ -30,7 +30,7 @@ CJK = ["中文", "日本語", "汉字abc", "abc汉字"]
 TYPO = ['"quoted"', "'single'", "it's", "don't", "James'", "wait...", "...so", "and...then", '"two', 'words"',
         "x=\"v\"", "'tis", "rock'n'roll", '("paren")', "end...\"", "—\"dash\"", "hmm....", "a . . . b", "..",
         "\"nested", "'inner'", "quotes\"", "Jill's", "\\\"esc\\\"", "5'10\"", "don't...can't", "it's...isn't", "'x'...'y'",
-        "word…", "…word", "“…and", "a … b"]
+        "word…", "…word", "“…and", "a … b", "wait... (so", "and... [x]", "hmm... \"q\""]
 CODE_CORE = ["`x`", "`a b`", "`foo(bar, baz)`", "`--flag value`", "`*not em*`", "`<tag attr>`", "`it's \"q\"...`",
              "`a|b`", "`{% t %}`", "`[l](u)`", "`` a`b ``", "`` `x` ``", "``` a``b ```", "`` `a - b ``", "`` 1. `x` # y ``",
              "`a  b`", "`- x`"]
@@ -38,7 +38,8 @@ CODE_HOSTILE = ["`end. Next`", "` x `"]
 LINK_CORE = ["[link](http://ex.com/a)", "[two words](http://ex.com/a_b?q=1&r=2)", "[a b c](http://u.v/w \"T t\")",
              "![alt text](img.png)", "![a](i.png \"ti tle\")", "<https://example.org/path>", "[*em* link](http://x.y/z)",
              "[with `code` in](http://x.y)", "https://bare.example.com/p?q=1", "[it's \"q\"](http://q.uo/te's)",
-             "<mailto:a@b.co>", "https://en.wikipedia.org/wiki/O'Reilly_Media", "<https://x.y/it's>"]
+             "<mailto:a@b.co>", "https://en.wikipedia.org/wiki/O'Reilly_Media", "<https://x.y/it's>",
+             "[same dest](http://ref.example/x)", "[same dest](http://ref.example/x \"Different\")", "[same dest](/rel/path_a \"Title here\")"]
 LINK_HOSTILE = ["[sp](<http://x.y/a b>)", "[t](http://x.y 'single')", "[p](http://x.y (paren))", "[dots. End](http://x.y)",
                 "[nested [br]](http://x.y)", "[e](http://x.y/(a))", "www.bare.example.org"]
 HTML_INL = ["<span class=\"a b\">", "</span>", "<br/>", "<b>", "</b>", "<a href=\"http://x.y/z\" title=\"t's\">", "</a>"]
@@ -337,6 +338,11 @@ class Gen:
             lines.pop()  # trailing blank lines of a code block: known C04 deviation, hostile only
         while lines and lines[0].strip() == "" and not self.hostile:
             lines.pop(0)
+        if r.random() < 0.15:
+            # a documentation sample inside the code block: an inner fence line with an info string (content, since a
+            # closing fence carries no info string) followed by tag / list / table look-alike lines
+            self.feats.add("code-sample-with-tags")
+            lines += [ch * n + r.choice(["python", " sh", "md title"]), "{% t %}", "- not list", "| a | b |", "{% /t %}", "text"]
         ind = r.choice([0, 0, 0, 1, 2, 3]) if ctx == "top" else 0
         if ind and r.random() < 0.6:
             # a bare fence run that is content only because it sits >= 4 columns in (source fence indented by
@@ -346,8 +352,8 @@ class Gen:
             deep = " " * k + ch * r.randint(n, n + 1)
             lines.insert(r.randint(0, len(lines)), deep)
             lines.append("after")
-            return {"t": "fence", "ch": ch, "n": n, "info": info, "lines": lines, "indent": ind, "deep": deep}
-        return {"t": "fence", "ch": ch, "n": n, "info": info, "lines": lines, "indent": ind}
+            return {"t": "fence", "ch": ch, "n": n, "info": info, "lines": lines, "indent": ind, "deep": deep, "close_extra": 0}
+        return {"t": "fence", "ch": ch, "n": n, "info": info, "lines": lines, "indent": ind, "close_extra": r.choice([0, 0, 0, 1, 2])}
 
     def table(self) -> dict:
         r = self.r
@@ -564,7 +570,8 @@ class Ser:
         if t == "fence":
             f = b["ch"] * b["n"]
             ind = " " * b.get("indent", 0)
-            return X([ind + f + b["info"]] + [(ind + ln) if ln else "" for ln in b["lines"]] + [ind + f])
+            # the closing fence may be longer than the opening one
+            return X([ind + f + b["info"]] + [(ind + ln) if ln else "" for ln in b["lines"]] + [ind + f + b["ch"] * b.get("close_extra", 0)])
         if t == "icode":
             return X(["    " + ln for ln in b["lines"]])
         if t == "table":
